@@ -45,7 +45,7 @@ func entEqual(a, b badger.VerifEntry) bool {
 // C16 monitors the real log-file encode/iterate/read code.
 func C16(c *core.Ctx) {
 	c.Rule("generated log files: groups of transactional entries (bitTxn, one commit ts) closed by an end marker, interleaved non-transactional entries, " +
-		"optionally a last group without its end marker; keys 1..65000 bytes, values 0..1MiB, all meta/userMeta, expiry 0/max, plain and AES; " +
+		"optionally a last group without its end marker; keys 1..65000 bytes, values 0..3 MiB (value-log files hold values larger than the largest ValueThreshold), all meta/userMeta, expiry 0/max, plain and AES; " +
 		"oracle: iterate delivers exactly the entries of complete groups in write order with value pointers equal to an independently computed (offset,len), " +
 		"ReadAt(vp) returns the same entry, validEndOffset = end of last complete group, every single-byte flip inside key/value/crc of sampled records " +
 		"makes that record's group and everything after it disappear and nothing altered is ever returned; distinct = (encrypted, group-shape, size-class) classes")
@@ -88,7 +88,7 @@ func C16(c *core.Ctx) {
 				vl := r.Intn(200)
 				if big && r.Intn(3) == 0 {
 					kl = []int{64999 - 8, 65000 - 8, 30000, 127, 128, 16383, 16384}[r.Intn(7)]
-					vl = []int{0, 1 << 20, 65536, 16383, 16384, 300000}[r.Intn(6)]
+					vl = []int{0, 1 << 20, 65536, 16383, 16384, 300000, 1<<20 + 1, 3<<20 + 5}[r.Intn(8)]
 				}
 				e := badger.VerifEntry{Key: y.KeyWithTs(gen.Bytes(r, kl), ts), Value: gen.Bytes(r, vl), UserMeta: byte(r.Intn(256)),
 					Meta: []byte{0, badger.VerifBitDelete, badger.VerifBitValuePointer, badger.VerifBitDiscardEarlierVersions, badger.VerifBitMergeEntry}[r.Intn(5)]}
